@@ -435,7 +435,13 @@ Definition run_step (k : list frame) (comp : completion) (c : ctx) : M mres :=
           match comp with
           | CNormal v =>
               let rv := match v with Some x => x | None => VUndef end in
-              guard (bind_resumed c target decl rv) k' c (fun _ => o_run self k' (CNormal (match target with Some _ => None | None => v end)) c)
+              (* `t = yield e;` / `t = eval("...");` are expression statements: their value is the assigned value;
+                 a declaration (`let t = ...`) has an empty completion *)
+              guard (bind_resumed c target decl rv) k' c
+                    (fun _ => o_run self k' (CNormal (match target, decl with
+                                                      | Some _, Some _ => None
+                                                      | Some _, None => Some rv
+                                                      | None, _ => v end)) c)
           | _ => o_run self k' comp c
           end
       | KAwaitResume target decl =>
